@@ -167,6 +167,10 @@ def run(prop, tier, seed, replay=None):
         for k, v in r.items():
             print("%-14s %s" % (k, v[0]))
         bad = impl_fails_spec([line])[0]
+        # properties whose oracle is an observe() hook: evaluate it on the replayed case
+        for o in prop.observe({"three_sides": three_sides, "impls": impls, "driver": driver, "rng": rng, "tier": tier}, payload.get("stream", "replay"), [line], r):
+            print("%-14s %s" % ("oracle", o.get("spec")))
+            bad = True
         print("REPRODUCED" if bad else "not reproduced")
         return 1 if bad else 0
 
